@@ -692,6 +692,143 @@ def gen_DedupFacts():
     return "".join(out), {x.path: x.digest for x in (fd, dp, da, us, sh, fc, di)}
 
 
+def gen_CacheFacts():
+    dk = Src(os.path.join(REPO, "chunk_cache/src/disk.rs"))
+    ci = Src(os.path.join(REPO, "chunk_cache/src/disk/cache_item.rs"))
+    ch = Src(os.path.join(REPO, "chunk_cache/src/disk/cache_file_header.rs"))
+    out = [PRELUDE]
+    m = dk.one(r"\bconst PREFIX_DIR_NAME_LEN\s*:\s*usize\s*=\s*(\d+)\s*;", "PREFIX_DIR_NAME_LEN")
+    out.append("Definition PREFIX_DIR_NAME_LEN : nat := %d.\n" % int(m.group(1)))
+    m = dk.one(r"\bpub const DEFAULT_CHUNK_CACHE_CAPACITY\s*:\s*u64\s*=\s*([^;]+);", "DEFAULT_CHUNK_CACHE_CAPACITY")
+    out.append("Definition DEFAULT_CHUNK_CACHE_CAPACITY : N := %s.\n" % ExprTr({}).tr(m.group(1)))
+    ist = dk.fn_body("initialize_state")
+    m = re.search(r"let max_num_bytes = (\d+) \* capacity;", ist)
+    if not m:
+        raise TranslateError("initialize_state: early-stop bound changed")
+    out.append("Definition SCAN_STOP_FACTOR : N := %d.\n" % int(m.group(1)))
+    for p_ in ["if key_prefix_dir_name.as_encoded_bytes().len() != PREFIX_DIR_NAME_LEN {",
+               "let cache_item = match try_parse_cache_file(item, capacity) { Ok(Some(ci)) => ci, Ok(None) => continue, Err(e) => return Err(e), };",
+               "total_bytes += cache_item.len; num_items += 1; items.push(VerificationCell::new_unverified(cache_item));",
+               "if total_bytes >= max_num_bytes { state.insert(key, items); return Ok(CacheState::new(state, num_items, total_bytes)); }",
+               "if !items.is_empty() { state.insert(key, items); }"]:
+        if p_ not in ist:
+            raise TranslateError("initialize_state changed: %r" % p_)
+    # the key directory must sit under its own prefix directory (case-insensitively), otherwise it is skipped
+    if "debug_assert_eq!" in ist:
+        pref = "false"
+    elif "if key_dir_name_bytes.len() < PREFIX_DIR_NAME_LEN || !key_dir_name_bytes[..PREFIX_DIR_NAME_LEN].eq_ignore_ascii_case(key_prefix_dir_name.as_encoded_bytes()) {" in ist:
+        pref = "true"
+    else:
+        raise TranslateError("initialize_state: unrecognised prefix-directory check")
+    out.append("Definition key_dir_prefix_checked : bool := %s.\n" % pref)
+    pk = dk.fn_body("try_parse_key")
+    for p_ in ["let buf = BASE64_ENGINE.decode(file_name)?;", "let hash = MerkleHash::from_slice(&buf[..size_of::<MerkleHash>()])?;",
+               "let prefix = String::from(std::str::from_utf8(&buf[size_of::<MerkleHash>()..])?);"]:
+        if p_ not in pk:
+            raise TranslateError("try_parse_key changed: %r" % p_)
+    chk = "if buf.len() < size_of::<MerkleHash>() { return Err("
+    out.append("Definition key_name_length_checked : bool := %s.\n" % ("true" if chk in pk and pk.index(chk) < pk.index("MerkleHash::from_slice") else "false"))
+    pf = dk.fn_body("try_parse_cache_file")
+    for p_ in ["if !md.is_file() { return Ok(None); }", "if md.len() > DEFAULT_CHUNK_CACHE_CAPACITY { return Err(",
+               "if md.len() > capacity { return Ok(None); }", "if md.len() != cache_item.len {"]:
+        if p_ not in pf:
+            raise TranslateError("try_parse_cache_file changed: %r" % p_)
+    order = [pf.index("if !md.is_file()"), pf.index("if md.len() > DEFAULT_CHUNK_CACHE_CAPACITY"), pf.index("if md.len() > capacity"),
+             pf.index("CacheItem::parse("), pf.index("if md.len() != cache_item.len")]
+    if order != sorted(order):
+        raise TranslateError("try_parse_cache_file: order of checks changed")
+    if pf.count("remove_file(item.path())?;") != 2:
+        raise TranslateError("try_parse_cache_file: deletions changed")
+    # lookups
+    fm = dk.fn_body("find_match")
+    if "for item in items.iter() { if item.range.start <= range.start && range.end <= item.range.end { return Ok(Some(item.clone())); } }" not in fm:
+        raise TranslateError("find_match changed")
+    gi = dk.fn_body("get_impl")
+    for p_ in ["if range.start >= range.end { return Err(ChunkCacheError::InvalidArguments); }",
+               "ErrorKind::NotFound => { self.remove_item(key, &cache_item)?; continue; },",
+               "if !cache_item.is_verified() { let checksum = crc32_from_reader(&mut file)?; if checksum == cache_item.checksum { cache_item.verify(); file.rewind()?; } else {",
+               "let start = cache_item.range.start; let result_buf = get_range_from_cache_file(&header, &mut file_reader, range, start)?; return Ok(Some(result_buf));"]:
+        if p_ not in gi:
+            raise TranslateError("get_impl changed: %r" % p_)
+    pi = dk.fn_body("put_impl")
+    for p_ in ["if range.start >= range.end || chunk_byte_indices.len() != (range.end - range.start + 1) as usize || chunk_byte_indices[0] != 0 || *chunk_byte_indices.last().unwrap() as usize != data.len() || !strictly_increasing(chunk_byte_indices) { return Err(ChunkCacheError::InvalidArguments); }",
+               "while let Some(cache_item) = self.find_match(key, range)? { if self.validate_match(key, range, chunk_byte_indices, data, &cache_item)? { return Ok(()); } }",
+               "hasher.update(&header_buf); hasher.update(data); hasher.finalize()",
+               "let cache_item = CacheItem { range: *range, len: (header_buf.len() + data.len()) as u64, checksum, };",
+               "if item.range.start >= cache_item.range.start && item.range.end <= cache_item.range.end { to_remove.push(i); }",
+               "for item_idx in to_remove.into_iter().rev() { let item = items.swap_remove(item_idx);",
+               "state.num_items -= num_items_rm; state.total_bytes -= total_bytes_rm;",
+               "let evicted_paths = self.maybe_evict(&mut state, cache_item.len)?;",
+               "state.num_items += 1; state.total_bytes += cache_item.len; let item_set = state.inner.entry(key.clone()).or_default(); item_set.push(VerificationCell::new_verified(cache_item));"]:
+        if p_ not in pi:
+            raise TranslateError("put_impl changed: %r" % p_)
+    if not (pi.index("fw.close()?;") < pi.index("let mut state = self.state.lock()?;") < pi.index("drop(state);") < pi.index("for path in overlapping_item_paths { remove_file(&path)?; }")):
+        raise TranslateError("put_impl: write / commit / delete order changed")
+    inside = "if item != cache_item { overlapping_item_paths.insert(self.item_path(key, &item)?); total_bytes_rm += item.len; }"
+    outside = "if item != cache_item { overlapping_item_paths.insert(self.item_path(key, &item)?); } total_bytes_rm += item.len;"
+    if outside in pi:
+        out.append("Definition bytes_removed_for_every_entry : bool := true.\n")
+    elif inside in pi:
+        out.append("Definition bytes_removed_for_every_entry : bool := false.\n")
+    else:
+        raise TranslateError("put_impl: accounting of removed entries not recognised")
+    vm = dk.fn_body("validate_match")
+    for p_ in ["if md.len() != cache_item.len { self.remove_item(key, cache_item)?; return Ok(false); }",
+               "if checksum != cache_item.checksum { self.remove_item(key, cache_item)?; return Ok(false); }",
+               "let idx_start = (range.start - cache_item.range.start) as usize; let idx_end = (range.end - cache_item.range.start + 1) as usize;",
+               "if stored_diff != given_diff {", "if data != stored.data.as_ref() { return Err(ChunkCacheError::InvalidArguments); } Ok(true)"]:
+        if p_ not in vm:
+            raise TranslateError("validate_match changed: %r" % p_)
+    bc = "if header.chunk_byte_indices.len() < idx_end { self.remove_item(key, cache_item)?; return Ok(false); }"
+    out.append("Definition validate_bounds_checked : bool := %s.\n" % ("true" if bc in vm and vm.index(bc) < vm.index("for i in idx_start..idx_end - 1") else "false"))
+    me = dk.fn_body("maybe_evict")
+    for p_ in ["let to_remove = total_bytes as i64 - self.capacity as i64 + expected_add as i64;", "while to_remove > bytes_removed {",
+               "items.remove(idx); if items.is_empty() { state.inner.remove(&key); } state.total_bytes -= len; state.num_items -= 1; bytes_removed += len as i64;"]:
+        if p_ not in me:
+            raise TranslateError("maybe_evict changed: %r" % p_)
+    ri = dk.fn_body("remove_item")
+    for p_ in ["None => return Ok(()),", "items.swap_remove(idx); if items.is_empty() { state.inner.remove(key); } state.total_bytes -= cache_item.len; state.num_items -= 1;",
+               "if !path.exists() { return Ok(()); } remove_file(&path)?;"]:
+        if p_ not in ri:
+            raise TranslateError("remove_item changed: %r" % p_)
+    gr = dk.fn_body("get_range_from_cache_file")
+    for p_ in ["let start_idx = (range.start - start) as usize; let end_idx = (range.end - start) as usize;",
+               "let start_byte = header.chunk_byte_indices.get(start_idx).ok_or(ChunkCacheError::BadRange)?; let end_byte = header.chunk_byte_indices.get(end_idx).ok_or(ChunkCacheError::BadRange)?;",
+               "file_contents.seek(SeekFrom::Start((*start_byte as usize + header.header_len()) as u64))?; let mut data = vec![0; (end_byte - start_byte) as usize]; file_contents.read_exact(&mut data)?;",
+               "header.chunk_byte_indices[start_idx..=end_idx] .iter() .map(|v| *v - header.chunk_byte_indices[start_idx])"]:
+        if p_ not in gr:
+            raise TranslateError("get_range_from_cache_file changed: %r" % p_)
+    kd = dk.fn_body("key_dir")
+    for p_ in ["buf[..size_of::<MerkleHash>()].copy_from_slice(key.hash.as_bytes()); buf[size_of::<MerkleHash>()..].copy_from_slice(prefix_bytes);",
+               "let encoded = BASE64_ENGINE.encode(&buf); let prefix_dir = &encoded[..PREFIX_DIR_NAME_LEN]; let dir_str = format!(\"{prefix_dir}/{encoded}\");"]:
+        if p_ not in kd:
+            raise TranslateError("key_dir changed: %r" % p_)
+    dk.pin("pub(crate) const BASE64_ENGINE: GeneralPurpose = URL_SAFE;", "base64 engine")
+    # item name: field order and widths
+    fnm = ci.fn_body("file_name")
+    if call_seq(fnm, r"write_u\d+\(&mut w, self\.[a-z_.]+\)") != ["write_u32(&mut w, self.range.start)", "write_u32(&mut w, self.range.end)", "write_u64(&mut w, self.len)", "write_u32(&mut w, self.checksum)"]:
+        raise TranslateError("CacheItem::file_name: field sequence changed")
+    ps = ci.fn_body("parse")
+    if call_seq(ps, r"let [a-z]+ = read_u\d+\(&mut r\)") != ["let start = read_u32(&mut r)", "let end = read_u32(&mut r)", "let len = read_u64(&mut r)", "let checksum = read_u32(&mut r)"]:
+        raise TranslateError("CacheItem::parse: field sequence changed")
+    for p_ in ["if buf.len() != CACHE_ITEM_FILE_NAME_BUF_SIZE { return Err(", "if start >= end { return Err(ChunkCacheError::BadRange); }"]:
+        if p_ not in ps:
+            raise TranslateError("CacheItem::parse changed: %r" % p_)
+    ci.pin("const CACHE_ITEM_FILE_NAME_BUF_SIZE: usize = size_of::<u32>() * 2 + size_of::<u64>() + size_of::<u32>();", "item name size")
+    ci.pin("#[derive(Debug, Clone, PartialEq, Eq, Hash)] pub(crate) struct CacheItem { pub(crate) range: ChunkRange, pub(crate) len: u64, pub(crate) checksum: u32, }", "CacheItem equality is structural")
+    # header
+    hs = ch.fn_body("serialize")
+    if "write_u32(writer, self.chunk_byte_indices.len() as u32)?; write_u32s(writer, &self.chunk_byte_indices)?;" not in hs:
+        raise TranslateError("CacheFileHeader::serialize changed")
+    hd = ch.fn_body("deserialize")
+    for p_ in ["let chunk_byte_indices_len = read_u32(reader)?;", "if i == 0 && idx != 0 { return Err(", "} else if !chunk_byte_indices.is_empty() && chunk_byte_indices.last().unwrap() >= &idx { return Err("]:
+        if p_ not in hd:
+            raise TranslateError("CacheFileHeader::deserialize changed: %r" % p_)
+    if "(self.chunk_byte_indices.len() + 1) * size_of::<u32>()" not in ch.fn_body("header_len"):
+        raise TranslateError("header_len changed")
+    return "".join(out), {x.path: x.digest for x in (dk, ci, ch)}
+
+
 GROUPS = {
     "GearTable": gen_GearTable,
     "ChunkConsts": gen_ChunkConsts,
@@ -700,4 +837,5 @@ GROUPS = {
     "ShardFacts": gen_ShardFacts,
     "XorbLayout": gen_XorbLayout,
     "DedupFacts": gen_DedupFacts,
+    "CacheFacts": gen_CacheFacts,
 }
